@@ -203,6 +203,7 @@ type probeDecor struct {
 	widths []int
 	calls  int
 	last   decor.Statistics
+	slot   int
 }
 
 func (d *probeDecor) Decor(st decor.Statistics) (string, int) {
@@ -236,7 +237,7 @@ func (d *probeDecor) Format(s string) (string, int) {
 
 type listenDecor struct{ *probeDecor }
 
-func (d listenDecor) OnShutdown() { d.x.Shut[d.name]++ }
+func (d listenDecor) OnShutdown() { d.x.shutCounts[d.slot]++ }
 
 type ewmaDecor struct{ *probeDecor }
 
@@ -246,7 +247,7 @@ func (d ewmaDecor) EwmaUpdate(n int64, dur time.Duration) {
 
 type listenEwmaDecor struct{ *probeDecor }
 
-func (d listenEwmaDecor) OnShutdown() { d.x.Shut[d.name]++ }
+func (d listenEwmaDecor) OnShutdown() { d.x.shutCounts[d.slot]++ }
 func (d listenEwmaDecor) EwmaUpdate(n int64, dur time.Duration) {
 	d.x.Note("ewma %s n=%d dur=%v", d.name, n, dur)
 }
@@ -271,6 +272,9 @@ func (x *X) buildDecor(bar, side, ord int, ds DecorSpec) decor.Decorator {
 	pd.WC = wc
 	pd.WC.Init()
 	var d decor.Decorator = pd
+	if ds.Listen {
+		pd.slot = x.RegisterShut(pd.name)
+	}
 	switch {
 	case ds.Listen && ds.Ewma:
 		d = listenEwmaDecor{pd}
